@@ -61,11 +61,19 @@ PROFILES = [
     },
     {
         "name": "quant",
+        "leaves": [FL("q", V), FL("q", PX), FL("q", FL("g", V)), ("eq", V, PX)],
+        "ops": ["and", "not", "exists", "forall"],
+        "arities": (2,),
+        "qvars": ((("v", "A"),), (("v", "A"), ("vb", "B"))),
+        "N": {"quick": 2},
+    },
+    {
+        "name": "quant-p",
         "leaves": [FL("q", V), FL("q", PX), FL("q", FL("g", V)), ("eq", V, PX), FL("p")],
         "ops": ["and", "not", "exists", "forall"],
         "arities": (2,),
         "qvars": ((("v", "A"),), (("v", "A"), ("vb", "B"))),
-        "N": {"quick": 2, "thorough": 2},
+        "N": {"thorough": 2},
     },
     {
         "name": "quant-b",
@@ -103,7 +111,8 @@ KIND_BAD = {"bool": I_(1), "int": B(True), "real": O("a1"), "A": O("c1"), "B": O
 OUT_OF_BOUNDS = {"int": I_(7), "real": I_(7)}
 
 VALS = dict(U.VALS_SMALL)
-VALS.update({"g": ["a1", "b1"], "k": [0, U.H], "r": [-1, U.Fraction(1, 3)], "u": [U.Fraction(1, 2), -U.H]})
+VALS.update({"g": ["a1", "b1"], "k": [0, U.H], "r": [-1, U.Fraction(1, 3)], "u": [U.Fraction(1, 2), -U.H],
+             "n": [0, 2], "i": [0, 1]})
 
 PROBE = ("and", FL("p"), FL("q", PX))
 PROBE_MAP = ((FL("p"), FL("q", O("a1"))),)
@@ -112,6 +121,7 @@ PROBE_MAP = ((FL("p"), FL("q", O("a1"))),)
 def bounds(tier):
     return {
         "profiles": X.profile_bounds(PROFILES, tier),
+        "value_sets_semantic_clause": {k: [str(x) for x in v] for k, v in VALS.items()},
         "values_per_key": 2 if tier == "quick" else 3,
         "pool": {k: [U.label(x) for x in v] for k, v in POOL.items()},
         "kind_incompatible": {k: U.label(v) for k, v in KIND_BAD.items()},
@@ -144,23 +154,26 @@ def values_for(k, nvals):
     out.append((KIND_BAD[so], False))
     iv = RS.declared_interval(k) if so in U.NUM else None
     if iv is not None and (iv[1] is not None or iv[2] is not None) and k[0] in ("p", "f"):
-        out.append((OUT_OF_BOUNDS[so], RS.compatible(k, OUT_OF_BOUNDS[so])))  # None: either outcome
+        out.append((OUT_OF_BOUNDS[so], "oob"))  # disjoint declared intervals: either outcome
     return out
 
 
 def maps_of(spec, level, nvals):
-    """all maps of the tree: tuples of (key, value) pairs (insertion order = pre-order of keys)."""
+    """all maps of the tree: tuples of (key, value) pairs (insertion order = pre-order of keys).
+    Entries that are (or may be) rejected - kind-incompatible / out-of-bounds values - occur at
+    most once per map and only for trees with <= 1 operator."""
     ks = keys_of(spec)
     vals = {k: values_for(k, nvals) for k in ks}
+    rej = lambda c: c is False or c == "oob"
     for k in ks:
         for v, c in vals[k]:
-            if c is False and level > 1:
+            if rej(c) and level > 1:
                 continue
             yield ((k, v),)
     for k1, k2 in combinations(ks, 2):
         for v1, c1 in vals[k1]:
             for v2, c2 in vals[k2]:
-                nbad = (c1 is False) + (c2 is False)
+                nbad = rej(c1) + rej(c2)
                 if nbad == 2 or (nbad == 1 and level > 1):
                     continue
                 yield ((k1, v1), (k2, v2))
@@ -334,7 +347,10 @@ def judge(h, spec, m, stats=None):
             )
         else:
             status = "vacuous-raise"
-    # the same environment must still work
+    if not isinstance(raised, UPTypeError):
+        h.renew()  # C14's subject: no demand on the environment after other failures
+        return status, out
+    # "rejected before anything changes": the same environment must still work
     try:
         pe = w.ctx.e(PROBE)
         got = pe.substitute({w.ctx.e(k): w.ctx.e(v) for k, v in PROBE_MAP})
